@@ -81,7 +81,8 @@ class WeightedInterpolator(NNBase):
 
         if len(prediction_points.shape) == 1:
             # Reshape vector to n x 1 array
-            prediction_points.shape = (1, prediction_points.shape[0])
+            # (a new view: the caller's array must keep its shape)
+            prediction_points = prediction_points.reshape(1, prediction_points.shape[0])
 
         normalized_pts = (prediction_points - self._tpm) / self._tpr
 
@@ -138,7 +139,8 @@ class WeightedInterpolator(NNBase):
 
         if len(prediction_points.shape) == 1:
             # Reshape vector to num_neighbors x 1 array
-            prediction_points.shape = (1, prediction_points.shape[0])
+            # (a new view: the caller's array must keep its shape)
+            prediction_points = prediction_points.reshape(1, prediction_points.shape[0])
 
         normalized_pts = (prediction_points - self._tpm) / self._tpr
 
